@@ -54,6 +54,9 @@ Definition bal (l : list (N * N)) (a : N) : N := match aget a l with Some b => b
 (* allowances live in the same association list under keys >= 2^40:
    ALW + owner * 2^20 + beneficiary (address ids are small); value 0 = no entry *)
 Definition ALW : N := 1099511627776.
+(* the total supply (staking state) lives under its own key; Burn lowers it
+   (transactions.go:230-241), Allow compares against it (:664-671) *)
+Definition SUPPLY : N := 2199023255552.
 Definition akey (owner ben : N) : N := ALW + owner * 1048576 + ben.
 Definition alw (l : list (N * N)) (owner ben : N) : N := bal l (akey owner ben).
 Definition count_alw (l : list (N * N)) (owner : N) : N :=
@@ -117,7 +120,7 @@ Definition k_exec (P : kparams) (l : list (N * N)) (pk : bytes) (t : tx) : list 
         if amt <? p_min_transfer P then (l, false) else                (* :202 *)
         if bal l from <? amt then (l, false) else                      (* :211 *)
         if bal l from - amt <? p_min_transact P then (l, false) else   (* :221 *)
-        (aset from (bal l from - amt) l, true)
+        (aset SUPPLY (bal l SUPPLY - amt) (aset from (bal l from - amt) l), true)
       else if meth t =? 5 then
         (* AddEscrow, transactions.go:253-360; the escrow pool of the target is not tracked *)
         if gas_limit <? used + p_gas_escrow P then (l, false) else
@@ -127,12 +130,13 @@ Definition k_exec (P : kparams) (l : list (N * N)) (pk : bytes) (t : tx) : list 
         if bal l from - amt <? p_min_transact P then (l, false) else
         (aset from (bal l from - amt) l, true)
       else if (meth t =? 6) || (meth t =? 8) then
-        (* Allow, transactions.go:603-698 (the total-supply bound on the allowance is not modelled) *)
+        (* Allow, transactions.go:603-698 *)
         if gas_limit <? used + p_gas_allow P then (l, false) else
         if p_max_allow P =? 0 then (l, false) else
         if existsb (N.eqb to) (p_reserved P) then (l, false) else
         if from =? to then (l, false) else
         let nw := if meth t =? 6 then alw l from to + amt else alw l from to - amt in
+        if bal l SUPPLY <? nw then (l, false) else                     (* :669 ErrAllowanceGreaterThanSupply *)
         let l' := aset (akey from to) nw l in
         if p_max_allow P <? count_alw l' from then (l, false) else (l', true)
       else if meth t =? 7 then
